@@ -58,6 +58,9 @@ def check(ctx: Ctx):
     _support.check_single_result(ctx)
     _support.check_popped_default(ctx, "droplets.image_analysis.get_length_scale", "smoothing")
     _support.compose(ctx, locate.check_dedup_metric, keep=("METRIC",), site_filter=lambda s_: s_.endswith(":min-distance"))
+    # the duplicate filter measures distances with Emulsion.get_pairwise_distances(grid=…): its periodic metric must be the grid's own
+    # (a hand-written minimum image that wraps by the number of cells is right for unit spacing only, so the count changes with the spacing)
+    _support.compose(ctx, _col17.check_pairwise, keep=("METRIC",))
     # the droplet-counting method hands the caller's options (threshold rule, minimal radius) to locate_droplets
     _support.check_kwargs_reach_call(ctx, "droplets.image_analysis.get_length_scale", "locate_droplets")
     ctx.expect("FORWARD", 1)
